@@ -50,7 +50,11 @@ ROWS = [
     (r"^mach::runtime::Runtime::enter/diverge:.*debug#1$", "debug-only",
      "protocol: enter() is called after Event::Stopped / Input / Inkey only", None),
     (r"^mach::runtime::Runtime::execute/diverge:.*debug#1$", "debug-only",
-     "every other state returns earlier in execute(); Inkey is left by enter() per protocol", None),
+     "every state other than Running / InputRunning returns earlier in execute() or is turned "
+     "into one that does: re-verified by a may-analysis of the variant of self.state over the "
+     "CFG of execute() (swap / replace modelled)",
+     {"typestate": {"adt": "mach::runtime::State", "place": "(*_1).state",
+                    "within": ["Running", "InputRunning"]}}),
     (r"^mach::runtime::Runtime::input/diverge:.*debug#1$", "debug-only",
      "Opcode::Input runs in Running/InputRunning only and do_input pushed exactly one String "
      "field per variable (count checked against the staged length)", None),
